@@ -17,10 +17,10 @@ import (
 // instruction is judged from the state the real machine was actually in (history included).
 
 const (
-	lsCodeWRAM  = 0xc000 // code window in work RAM: c000-c7ff
-	lsCodeROM   = 0x0150
-	lsStackLo   = 0xd900
-	lsStackHi   = 0xdb00
+	lsCodeWRAM       = 0xc000 // code window in work RAM: c000-c7ff
+	lsCodeROM        = 0x0150
+	lsStackLo        = 0xd900
+	lsStackHi        = 0xdb00
 	lsMaxInstrCycles = 40
 )
 
@@ -53,10 +53,30 @@ func pickAddr(r *engine.Rand, span int) uint16 {
 // ---- program builder -------------------------------------------------------------------
 
 type progGen struct {
-	r     *engine.Rand
-	base  uint16
-	code  []byte
-	marks []int // offsets of the tested instructions
+	r       *engine.Rand
+	base    uint16
+	code    []byte
+	marks   []int  // offsets of the tested instructions
+	preOp   []byte // emitted directly before the next tested opcode (e.g. HALT), then cleared
+	ramOnly bool   // pointers only into writable plain memory (no ROM, no FEA0-FEFF, no IF)
+}
+
+func (g *progGen) pick(span int) uint16 {
+	for {
+		a := pickAddr(g.r, span)
+		if !g.ramOnly {
+			return a
+		}
+		if a < 0x8000 || (a >= 0xfea0-uint16(span) && a <= 0xfeff) {
+			continue
+		}
+		return a
+	}
+}
+
+func (g *progGen) emitPre() {
+	g.code = append(g.code, g.preOp...)
+	g.preOp = nil
 }
 
 func (g *progGen) here() uint16   { return g.base + uint16(len(g.code)) }
@@ -106,8 +126,9 @@ func (g *progGen) emitUnit(op uint8, cb bool, allowIE bool) int {
 	r := g.r
 	if cb {
 		if op&7 == 6 {
-			g.emit16(0x21, pickAddr(r, 1))
+			g.emit16(0x21, g.pick(1))
 		}
+		g.emitPre()
 		off := len(g.code)
 		g.emit(0xcb, op)
 		g.marks = append(g.marks, off)
@@ -118,16 +139,16 @@ func (g *progGen) emitUnit(op uint8, cb bool, allowIE bool) int {
 		op == 0x22 || op == 0x2a || op == 0x32 || op == 0x3a
 	switch {
 	case usesHL:
-		g.emit16(0x21, pickAddr(r, 1))
+		g.emit16(0x21, g.pick(1))
 	case op == 0x02 || op == 0x0a:
-		g.emit16(0x01, pickAddr(r, 1))
+		g.emit16(0x01, g.pick(1))
 	case op == 0x12 || op == 0x1a:
-		g.emit16(0x11, pickAddr(r, 1))
+		g.emit16(0x11, g.pick(1))
 	case op == 0xe2 || op == 0xf2:
 		g.emit(0x0e, g.hramOffset(allowIE))
 	case op == 0xe9:
 		// JP (HL): target is the instruction after it plus some filler
-		g.emit16(0x21, g.here()+3+1+2)
+		g.emit16(0x21, g.here()+3+1+2+uint16(len(g.preOp)))
 	}
 	stack := op == 0xc9 || op == 0xd9 || (x == 3 && (z == 0 && y < 4 || z == 1 && y&1 == 0 || z == 4 && y < 4 || z == 5 || z == 7))
 	if stack {
@@ -137,15 +158,17 @@ func (g *progGen) emitUnit(op uint8, cb bool, allowIE bool) int {
 	if isRet {
 		// push a valid return address: the instruction after the RET plus filler
 		skip := r.Intn(3)
-		tgt := g.here() + 3 + 1 + 1 + uint16(skip)
+		tgt := g.here() + 3 + 1 + 1 + uint16(skip) + uint16(len(g.preOp))
 		g.emit16(0x11, tgt) // LD DE,tgt
 		g.emit(0xd5)        // PUSH DE
+		g.emitPre()
 		off := len(g.code)
 		g.emit(op)
 		g.marks = append(g.marks, off)
 		g.filler(skip)
 		return off
 	}
+	g.emitPre()
 	off := len(g.code)
 	g.marks = append(g.marks, off)
 	switch {
@@ -161,9 +184,9 @@ func (g *progGen) emitUnit(op uint8, cb bool, allowIE bool) int {
 		g.emit(op)
 		g.filler(2)
 	case op == 0x08:
-		g.emit16(op, pickAddr(r, 2))
+		g.emit16(op, g.pick(2))
 	case op == 0xea || op == 0xfa:
-		g.emit16(op, pickAddr(r, 1))
+		g.emit16(op, g.pick(1))
 	case op == 0xe0 || op == 0xf0:
 		g.emit(op, g.hramOffset(allowIE))
 	case op == 0x31:
@@ -185,7 +208,7 @@ func (g *progGen) hramOffset(allowIE bool) uint8 {
 		}
 		return 0xff
 	}
-	if g.r.Chance(1, 6) {
+	if !g.ramOnly && g.r.Chance(1, 6) {
 		return 0x0f // IF
 	}
 	return uint8(g.r.Range(0x80, 0xf8))
@@ -236,13 +259,17 @@ type lockstep struct {
 	res    *engine.Result
 	sc     *engine.Scenario
 
-	k        int // real cycles of the instruction in flight
-	instrs   int
-	pre      cpu.VerifRegs
-	events   []engine.Event
-	ei       int
-	stopped  bool
-	irqMid   bool // an interrupt line rose while the current instruction was in flight
+	k          int // real cycles of the instruction in flight
+	instrs     int
+	pre        cpu.VerifRegs
+	events     []engine.Event
+	ei         int
+	stopped    bool
+	irqMid     bool           // an interrupt line rose while the current instruction was in flight
+	haltAt     uint64         // boundary at which the (first) HALT instruction finished, 0 = not yet
+	relEvents  []engine.Event // events relative to the HALT
+	pendingArm func()         // run once after the next re-synchronisation
+	ifRefEnd   uint8          // the reference IF at the end of the instruction, before re-synchronisation
 
 	// per-instruction callback: return false to stop the run
 	onInstr func(l *lockstep, realCycles int, mism []lsMismatch) bool
@@ -302,8 +329,8 @@ func (l *lockstep) Write(a uint16, v uint8) {
 		l.ieReg = v
 	}
 }
-func (l *lockstep) IF() uint8 { return l.ifReg }
-func (l *lockstep) IE() uint8 { return l.ieReg }
+func (l *lockstep) IF() uint8      { return l.ifReg }
+func (l *lockstep) IE() uint8      { return l.ieReg }
 func (l *lockstep) AckIF(bit uint) { l.ifReg &^= 1 << bit }
 
 // pokeBoth writes plain memory in the real machine and in the shadow.
@@ -320,6 +347,7 @@ func newLockstep(sc *engine.Scenario, res *engine.Result) *lockstep {
 	l := &lockstep{m: m, res: res, sc: sc, dg: engine.NewDigest()}
 	img, _ := cartImage(sc)
 	l.cart = dmgref.NewCart(img)
+	m.GuardUndefined = true
 	l.ref.Bus = l
 	// quiesce the hardware parties that could raise interrupt lines on their own
 	m.Write(0xff40, 0x00) // LCD off
@@ -368,7 +396,13 @@ func newLockstep(sc *engine.Scenario, res *engine.Result) *lockstep {
 	} else {
 		m.IRQ.Disable()
 	}
-	l.events = sc.Events
+	for _, ev := range sc.Events {
+		if ev.K == "irq_h" {
+			l.relEvents = append(l.relEvents, ev)
+		} else {
+			l.events = append(l.events, ev)
+		}
+	}
 	l.syncRegs()
 	return l
 }
@@ -385,6 +419,21 @@ func (l *lockstep) syncRegs() {
 }
 
 func (l *lockstep) applyEvents() {
+	if l.haltAt != 0 {
+		for i := range l.relEvents {
+			ev := &l.relEvents[i]
+			if ev.K == "irq_h" && l.haltAt+uint64(ev.N) == l.m.N {
+				l.m.RaiseIRQ(int(ev.A))
+				l.ifReg |= 1 << ev.A
+				l.res.Fault("irq_line_" + fmt.Sprint(ev.A))
+				l.res.Probe("irq_after_halt")
+				if l.k > 0 {
+					l.irqMid = true
+				}
+				ev.K = "done"
+			}
+		}
+	}
 	for l.ei < len(l.events) && l.events[l.ei].At <= l.m.N {
 		ev := &l.events[l.ei]
 		l.ei++
@@ -434,6 +483,9 @@ func (l *lockstep) run(maxCycles uint64) {
 		}
 	}
 	m.RunCycles(maxCycles + lsMaxInstrCycles + 1)
+	if m.StoppedOnUndefined && l.res.Harness == "" && l.res.Violation == nil {
+		l.res.Harness = fmt.Sprintf("generated program ran into an undefined opcode at %04x", m.CPU.VerifGetRegs().PC)
+	}
 	l.res.Cycles = m.N
 	l.res.Digest = uint64(l.dg)
 }
@@ -481,6 +533,7 @@ func (l *lockstep) finishInstr() bool {
 			mism = append(mism, lsMismatch{"mem", fmt.Sprintf("%s: memory %04x holds %02x, documented %02x", l.describe(), acc.Addr, got, want)})
 		}
 	}
+	l.ifRefEnd = l.ifReg
 	if iff := m.IRQ.ReadIF() & 0x1f; iff != l.ifReg {
 		mism = append(mism, lsMismatch{"if", fmt.Sprintf("%s: IF=%02x, documented %02x", l.describe(), iff, l.ifReg)})
 		l.ifReg = iff
@@ -492,6 +545,9 @@ func (l *lockstep) finishInstr() bool {
 	if m.CPU.VerifHalted() != c.Halted {
 		mism = append(mism, lsMismatch{"halted", fmt.Sprintf("%s: halted=%v, documented %v", l.describe(), m.CPU.VerifHalted(), c.Halted)})
 		c.Halted = m.CPU.VerifHalted()
+	}
+	if l.haltAt == 0 && c.Kind == "instr" && l.Read(c.OpPC) == 0x76 {
+		l.haltAt = m.N
 	}
 	l.dg.U16(r.PC)
 	l.dg.Byte(r.A)
@@ -506,6 +562,11 @@ func (l *lockstep) finishInstr() bool {
 	l.k = 0
 	l.irqMid = false
 	l.syncRegs()
+	if ok && l.pendingArm != nil {
+		f := l.pendingArm
+		l.pendingArm = nil
+		f()
+	}
 	return ok
 }
 
@@ -562,4 +623,31 @@ func (l *lockstep) compareShadow() *lsMismatch {
 		}
 	}
 	return nil
+}
+
+// acceptLateVector implements the one open point of interrupt dispatch: when the pending set
+// changes during the dispatch cycles, the vector may correspond to the set at the boundary
+// or at the end of the dispatch. It returns true (and re-synchronises the reference IF) if
+// the real machine took the other documented-compatible vector.
+func (l *lockstep) acceptLateVector(realCycles int) bool {
+	if l.ref.Kind != "dispatch" || !l.irqMid {
+		return false
+	}
+	r := l.m.CPU.VerifGetRegs()
+	pend := l.ieReg & (l.ifRefEnd | 1<<uint((l.ref.Vector-0x40)/8)) & 0x1f
+	for bit := uint(0); bit < 5; bit++ {
+		if pend&(1<<bit) != 0 {
+			alt := uint16(0x40 + 8*bit)
+			if alt != l.ref.Vector && r.PC == alt && r.SP == l.ref.SP && realCycles == l.ref.Cycles {
+				want := (l.ifRefEnd | 1<<uint((l.ref.Vector-0x40)/8)) &^ (1 << bit)
+				if l.m.IRQ.ReadIF()&0x1f == want {
+					l.ifReg = want
+					l.res.Probe("vector_chosen_at_end_of_dispatch")
+					return true
+				}
+			}
+			return false
+		}
+	}
+	return false
 }
